@@ -202,6 +202,15 @@ func GenEx(t *rapid.T, cfg *GenCfg, depth int, label string) *Ex {
 func avgCollision(fields []FieldDef) bool {
 	seen := map[string]string{}
 	bad := false
+	// two fields with the same expression text (under different names) collide
+	// in the same way: sub-mergers are matched by expression string
+	texts := map[string]bool{}
+	for _, f := range fields {
+		if texts[f.Ex.SQL()] {
+			bad = true
+		}
+		texts[f.Ex.SQL()] = true
+	}
 	for _, f := range fields {
 		f.Ex.Walk(func(e *Ex) {
 			if e.Op == "AVG" || e.Op == "WAVG" {
